@@ -332,12 +332,15 @@ func sameSSAValue(a, b ssa.Value) bool {
 	}
 	la, ok1 := a.(*ssa.UnOp)
 	lb, ok2 := b.(*ssa.UnOp)
-	if !ok1 || !ok2 || la.Op != token.MUL || lb.Op != token.MUL || la.X != lb.X {
+	if !ok1 || !ok2 || la.Op != token.MUL || lb.Op != token.MUL {
 		return false
+	}
+	if la.X != lb.X {
+		return sameFieldOfLocal(la, lb)
 	}
 	al, ok := la.X.(*ssa.Alloc)
 	if !ok {
-		return false
+		return sameFieldOfLocal(la, lb)
 	}
 	stores := 0
 	for _, r := range refs(al) {
@@ -346,4 +349,85 @@ func sameSSAValue(a, b ssa.Value) bool {
 		}
 	}
 	return stores == 1
+}
+
+
+// sameFieldOfLocal: two loads of the same field of one function-local struct (a small struct kept
+// in a local instead of two parallel variables) between which the field is not written: every store
+// to that field (and every whole-struct store to the local) comes before both loads on every path.
+func sameFieldOfLocal(la, lb *ssa.UnOp) bool {
+	fa, ok1 := la.X.(*ssa.FieldAddr)
+	fb, ok2 := lb.X.(*ssa.FieldAddr)
+	if !ok1 || !ok2 || fa.X != fb.X || fa.Field != fb.Field {
+		return false
+	}
+	al, ok := fa.X.(*ssa.Alloc)
+	if !ok {
+		return false
+	}
+	// the local does not escape: only field addresses (loaded from / stored to), whole loads and
+	// whole stores
+	var writes []ssa.Instruction
+	for _, r := range refs(al) {
+		switch x := r.(type) {
+		case *ssa.Store:
+			if x.Addr != ssa.Value(al) {
+				return false
+			}
+			writes = append(writes, x)
+		case *ssa.FieldAddr:
+			for _, rr := range refs(x) {
+				switch y := rr.(type) {
+				case *ssa.Store:
+					if y.Addr != ssa.Value(x) {
+						return false
+					}
+					if x.Field == fa.Field {
+						writes = append(writes, y)
+					}
+				case *ssa.UnOp:
+					if y.Op != token.MUL {
+						return false
+					}
+				default:
+					return false
+				}
+			}
+		case *ssa.UnOp:
+			if x.Op != token.MUL {
+				return false
+			}
+		default:
+			return false
+		}
+	}
+	// (A) both loads in one block with no write of the field between them
+	if la.Block() == lb.Block() {
+		i, j := indexIn(la), indexIn(lb)
+		if i > j {
+			i, j = j, i
+		}
+		clean := true
+		for _, w := range writes {
+			if w.Block() == la.Block() && indexIn(w) > i && indexIn(w) < j {
+				clean = false
+			}
+		}
+		if clean {
+			return true
+		}
+	}
+	// (B) every write comes before both loads on every path
+	before := func(st ssa.Instruction, ld *ssa.UnOp) bool {
+		if st.Block() == ld.Block() {
+			return indexIn(st) < indexIn(ld)
+		}
+		return st.Block().Dominates(ld.Block())
+	}
+	for _, w := range writes {
+		if !before(w, la) || !before(w, lb) {
+			return false
+		}
+	}
+	return true
 }
